@@ -1154,6 +1154,38 @@ def paths_case(w: int, h: int, salt: int = 0) -> list[tuple[str, str]]:
     return out
 
 
+def dxt_case(w: int, h: int) -> list[tuple[str, str]]:
+    """Block-compressed data is the one input for which the decoders use width and height separately: a w x h DXT1 image of
+    solid 4x4 blocks, each of another colour, handed to copy_from() and to the lazy load() of a read frame, must come out
+    as solid 4x4 squares at the blocks' places (compared by pattern: no reference decoder involved)."""
+    from srctools.vtf import VTF, ImageFormats
+    out: list[tuple[str, str]] = []
+    cols = [0xF800, 0x07E0, 0x001F, 0xFFE0, 0xF81F, 0x07FF, 0xFFFF, 0x8410, 0x8000, 0x0400, 0x0010, 0x8400, 0x8010, 0x0410, 0xC618, 0x4208]
+    bw, bh = w // 4, h // 4
+    data = b''.join(struct.pack('<HHI', cols[(by * bw + bx) % len(cols)], 0, 0) for by in range(bh) for bx in range(bw))
+    for how in ('copy_from', 'lazy_load'):
+        try:
+            fr = VTF(w, h).get()
+            if how == 'copy_from':
+                _with_alarm(20, lambda: fr.copy_from(data, ImageFormats.DXT1))
+            else:
+                fr._data = None
+                fr._fileinfo = (io.BytesIO(b'\0' * 7 + data), 7, ImageFormats.DXT1)     # what VTF.read() attaches to a frame
+                _with_alarm(20, fr.load)
+            raw = bytes(fr._data)
+        except Exception as e:      # noqa: BLE001
+            out.append((f'dxt-non-square-{how}-raises-{type(e).__name__}', f'{w}x{h} DXT1 through {how}: {type(e).__name__}: {e}'))
+            continue
+        px = {(x, y): raw[4 * (y * w + x):4 * (y * w + x) + 4] for y in range(h) for x in range(w)}
+        rep = {(bx, by): px[4 * bx, 4 * by] for by in range(bh) for bx in range(bw)}
+        wrong = [(x, y) for (x, y), v in px.items() if v != rep[x // 4, y // 4]]
+        if len(raw) != 4 * w * h or wrong or len(set(rep.values())) != min(len(rep), len(cols)):
+            out.append((f'dxt-non-square-{how}-misplaces-blocks',
+                        f'{w}x{h} DXT1 image of {bw}x{bh} solid blocks through {how}: {len(wrong)} pixels are not the colour of their block'
+                        + (f', e.g. (x, y) = {wrong[0]}' if wrong else f'; {len(set(rep.values()))} distinct block colours')))
+    return out
+
+
 PATH_SHAPES = [(1, 1), (2, 1), (1, 2), (4, 1), (1, 4), (8, 1), (1, 8), (2, 8), (8, 2), (4, 2), (2, 4), (16, 2), (4, 4), (2, 16), (8, 4)]
 
 
@@ -1168,6 +1200,12 @@ def search_paths(ck: Ck) -> None:
             ck.sample({'paths': [w, h, salt]})
         for key, what in paths_case(w, h, salt):
             ck.violation(key, what, {'paths': [w, h, salt]})
+    for (w, h) in [(8, 4), (4, 8), (16, 4), (4, 16), (8, 8), (16, 8)]:
+        ck.count('dxt_block_layout_cases', 2)
+        if w != h:
+            ck.seen(('dxt', w, h))
+        for key, what in dxt_case(w, h):
+            ck.violation(key, what, {'dxt': [w, h]})
 
 
 def search_filters(ck: Ck) -> None:
@@ -2023,7 +2061,7 @@ def run(ck: Ck) -> None:
             ck.explain('instance:cubemaps_have_six_sides')
             ck.explain('instance:save_and_read_loop_nests')
             ck.explain('instance:save_and_read_walk')
-        if k.startswith(('pixel-path-', 'pixel-array-', 'copy-from-frame-')):
+        if k.startswith(('pixel-path-', 'pixel-array-', 'copy-from-frame-', 'dxt-non-square-', 'generated-mipmap', 'frame-dimensions', 'frames-permuted', 'pixels-displaced')):
             ck.explain('instance:pixel_path_')
             ck.explain('instance:pixel_array_')
             ck.explain('instance:whole_array_')
@@ -2091,6 +2129,10 @@ def replay(data: dict) -> int:
     if 'history' in r:
         base, n, levels = history_base(r['seed'])
         for k, w in check_history(base, n, levels, r['history']):
+            print(k, '::', w)
+        return 0
+    if 'dxt' in r:
+        for k, w in dxt_case(*r['dxt']):
             print(k, '::', w)
         return 0
     if 'paths' in r:
